@@ -167,7 +167,9 @@ func (r *scopeRegistry) ForEachScope(f func(*scope)) {
 }
 
 func (r *scopeRegistry) Subscope(parent *scope, prefix string, tags map[string]string) *scope {
-	if r.root.closed.Load() || parent.closed.Load() {
+	// n.b. A closed test scope keeps working (see below), and so does whatever
+	//      is derived from it.
+	if r.root.closed.Load() || (parent.closed.Load() && !parent.testScope) {
 		return NoopScope.(*scope)
 	}
 
